@@ -85,9 +85,18 @@ f_getuid (void)
   object_t *ob;
   ob = sp->u.ob;
 
-  DEBUG_CHECK (ob->uid == NULL, "UID is a null pointer\n");
-  put_constant_string (ob->uid->name);
-  free_object (ob, "f_getuid");
+  /* master::valid_object() and creator_file() see the new object before
+   * give_uid_to_object() has run: it has no uid yet */
+  if (ob->uid)
+    {
+      put_constant_string (ob->uid->name);
+      free_object (ob, "f_getuid");
+    }
+  else
+    {
+      free_object (ob, "f_getuid");
+      *sp = const0;
+    }
 }
 #endif
 
